@@ -345,3 +345,235 @@ func (sc *MergeChain) Run(t *core.Tape, env *Env) (any, []core.Violation) {
 }
 
 func kindClass(t reflect.Type) string { return t.Kind().String() }
+
+// ---------------------------------------------------------------------------
+// C16, SemanticError clause: one value that cannot be converted, at a known
+// pointer and byte span.
+
+// SemErr is the scenario; it reuses the merge-capable type generator.
+type SemErr struct{}
+
+type SemErrPlan struct {
+	TypeStr string        `json:"type"`
+	Text    string        `json:"text"`
+	Ptr     string        `json:"want_pointer"`
+	Start   int           `json:"value_start"`
+	End     int           `json:"value_end"`
+	What    string        `json:"injected"`
+	Read    core.ReadPlan `json:"read"`
+	typ     reflect.Type
+}
+
+type semGen struct {
+	mergeGen
+	countdown int
+	done      bool
+	ptr       string
+	start     int
+	end       int
+	what      string
+}
+
+func ptrEsc(s string) string {
+	var b []byte
+	for i := 0; i < len(s); i++ {
+		switch s[i] {
+		case '~':
+			b = append(b, "~0"...)
+		case '/':
+			b = append(b, "~1"...)
+		default:
+			b = append(b, s[i])
+		}
+	}
+	return string(b)
+}
+
+// fitBad is fit() with exactly one unconvertible scalar.
+func (g *semGen) fitBad(b []byte, t reflect.Type, ptr string) []byte {
+	s := g.s
+	scalarBad := func(kind reflect.Kind) (string, string) {
+		switch kind {
+		case reflect.Bool:
+			return []string{`"true"`, `1`}[s.Draw(2)], "non-bool into bool"
+		case reflect.Int:
+			return []string{`"12"`, `1.5`, `true`, `9223372036854775808`, `1e2`}[s.Draw(5)], "bad value into int"
+		case reflect.Uint8:
+			return []string{`256`, `-1`, `"1"`, `0.5`}[s.Draw(4)], "bad value into uint8"
+		case reflect.Float64:
+			return []string{`"1.5"`, `true`, `1e999`}[s.Draw(3)], "bad value into float64"
+		case reflect.String:
+			return []string{`12`, `true`, `{}`, `[1]`}[s.Draw(4)], "non-string into string"
+		}
+		return "", ""
+	}
+	isScalar := func(t reflect.Type) bool {
+		switch t.Kind() {
+		case reflect.Bool, reflect.Int, reflect.Uint8, reflect.Float64, reflect.String:
+			return true
+		}
+		return t.Kind() == reflect.Slice && t.Elem().Kind() == reflect.Uint8
+	}
+	if isScalar(t) && !g.done {
+		g.countdown--
+		if g.countdown <= 0 {
+			g.done = true
+			var bad, what string
+			if t.Kind() == reflect.Slice {
+				bad, what = []string{`"!!!not base64"`, `12`, `"AQ"`}[s.Draw(3)], "bad value into []byte"
+			} else {
+				bad, what = scalarBad(t.Kind())
+			}
+			g.ptr, g.start, g.what = ptr, len(b), what
+			b = append(b, bad...)
+			g.end = len(b)
+			return b
+		}
+	}
+	switch t.Kind() {
+	case reflect.Pointer:
+		return g.fitBad(b, t.Elem(), ptr)
+	case reflect.Slice:
+		if t.Elem().Kind() == reflect.Uint8 {
+			return g.fit(b, t, 9, false)
+		}
+		b = append(b, '[')
+		n := 1 + s.Draw(3)
+		for i := 0; i < n; i++ {
+			if i > 0 {
+				b = append(b, ',')
+			}
+			b = g.fitBad(b, t.Elem(), ptr+"/"+strconv.Itoa(i))
+		}
+		return append(b, ']')
+	case reflect.Array:
+		if t.Elem().Kind() == reflect.Uint8 {
+			return g.fit(b, t, 9, false)
+		}
+		b = append(b, '[')
+		for i := 0; i < t.Len(); i++ {
+			if i > 0 {
+				b = append(b, ',')
+			}
+			b = g.fitBad(b, t.Elem(), ptr+"/"+strconv.Itoa(i))
+		}
+		return append(b, ']')
+	case reflect.Map:
+		if t == reflect.TypeFor[map[string]any]() {
+			return g.fit(b, t, 9, false)
+		}
+		b = append(b, '{')
+		n := 1 + s.Draw(3)
+		for i := 0; i < n; i++ {
+			k := []string{"k0", "k/1", "k~2"}[i]
+			if t.Key().Kind() == reflect.Int {
+				k = strconv.Itoa(i * 7)
+			}
+			if i > 0 {
+				b = append(b, ',')
+			}
+			b = append(b, '"')
+			b = append(b, k...)
+			b = append(b, '"', ':')
+			b = g.fitBad(b, t.Elem(), ptr+"/"+ptrEsc(k))
+		}
+		return append(b, '}')
+	case reflect.Struct:
+		b = append(b, '{')
+		for i := 0; i < t.NumField(); i++ {
+			if i > 0 {
+				b = append(b, ',')
+			}
+			name := "f" + strconv.Itoa(i)
+			b = append(b, '"')
+			b = append(b, name...)
+			b = append(b, '"', ':')
+			if s.Chance(1, 3) {
+				b = append(b, ' ')
+			}
+			b = g.fitBad(b, t.Field(i).Type, ptr+"/"+name)
+		}
+		return append(b, '}')
+	}
+	return g.fit(b, t, 9, false)
+}
+
+func (sc *SemErr) plan(t *core.Tape) *SemErrPlan {
+	p := &SemErrPlan{}
+	g := &semGen{mergeGen: mergeGen{s: t.S("type")}}
+	p.typ = g.typ(0)
+	p.TypeStr = clipStr(p.typ.String(), 400)
+	g.s = t.S("text")
+	g.countdown = 1 + g.s.Draw(12)
+	if g.s.Chance(1, 4) {
+		g.countdown = 1
+	}
+	text := g.fitBad(nil, p.typ, "")
+	if g.s.Chance(1, 3) {
+		text = append([]byte("  \n"), text...)
+		g.start += 3
+		g.end += 3
+	}
+	p.Text = string(text)
+	if !g.done {
+		p.What = ""
+		return p
+	}
+	p.Ptr, p.Start, p.End, p.What = g.ptr, g.start, g.end, g.what
+	rs := t.S("reader")
+	switch rs.Weighted(2, 2, 3, 3) {
+	case 1:
+		p.Read.MaxChunk = 1
+	case 2:
+		p.Read.Cuts = []int{rs.Draw(len(text) + 1), rs.Draw(len(text) + 1)}
+	case 3:
+		p.Read.MaxChunk = 1 + rs.Draw(50)
+	}
+	return p
+}
+
+func (sc *SemErr) Run(t *core.Tape, env *Env) (any, []core.Violation) {
+	p := sc.plan(t)
+	st := env.Stats
+	var viols []core.Violation
+	if p.What == "" {
+		st.Probe("c16/semerr/no-injection-site")
+		return p, viols
+	}
+	report := func(prop, class, site, f string, a ...any) bool {
+		v := core.Violationf(prop, class, site, f, a...)
+		viols = append(viols, v)
+		return v.Property == env.Prop && !env.Known[v.Key()]
+	}
+	check := func(route string, err error) {
+		st.Steps++
+		ec := classify(err)
+		if ec.Kind != "semantic" {
+			report("C16", "C16/semantic-error/type", route, "%s of %s into %s: the value at %q (%s, bytes %d..%d) cannot be converted but the call returned %v", route, clip([]byte(p.Text), 200), p.TypeStr, p.Ptr, p.What, p.Start, p.End, ec)
+			return
+		}
+		if ec.Ptr != p.Ptr {
+			report("C16", "C16/semantic-error/pointer", route, "%s: JSONPointer=%q, the unconvertible value is at %q (%s); text=%s type=%s", route, ec.Ptr, p.Ptr, p.What, clip([]byte(p.Text), 200), p.TypeStr)
+			return
+		}
+		if ec.Off < int64(p.Start) || ec.Off > int64(p.End) {
+			report("C16", "C16/semantic-error/offset", route, "%s: ByteOffset=%d, the unconvertible value occupies bytes %d..%d (%s); text=%s", route, ec.Off, p.Start, p.End, p.What, clip([]byte(p.Text), 200))
+			return
+		}
+		st.Probe("c16/semerr/checked/" + route)
+	}
+	v1 := reflect.New(p.typ)
+	check("Unmarshal", json.Unmarshal([]byte(p.Text), v1.Interface()))
+	v2 := reflect.New(p.typ)
+	sim := core.NewSimReader([]byte(p.Text), p.Read)
+	check("UnmarshalRead", json.UnmarshalRead(sim, v2.Interface()))
+	v3 := reflect.New(p.typ)
+	dec := jsontext.NewDecoder(core.NewSimReader([]byte(p.Text), p.Read))
+	check("UnmarshalDecode", json.UnmarshalDecode(dec, v3.Interface()))
+	if sim.NShort > 0 {
+		st.Nontrivial = true
+	}
+	st.Fault("read/short", sim.NShort)
+	st.SigAdd(0x5e, hashBytes([]byte(p.TypeStr)), hashBytes([]byte(p.What+p.Ptr)))
+	return p, viols
+}
